@@ -59,6 +59,11 @@ func (p *Pool[T]) Put(x T, size int) {
 	}
 
 	if idx := (size - 1) / p.stepSize; idx < len(p.pool) {
+		// only exact size classes are pooled: Get indexes shards by class, so an object of any
+		// other size in the same shard would be handed out for a larger request than it can hold.
+		if p.size(size) != size {
+			return
+		}
 		p.pool[idx].Put(x)
 	}
 }
